@@ -13,7 +13,9 @@
 #include <gmpxx.h>
 
 #include <limits>
+#include <cstdint>
 #include <unordered_set>
+#include <vector>
 #include <ostream>
 #include <string>
 #include <type_traits>
@@ -236,6 +238,54 @@ VF_LCMP(>=)
 VF_LCMP(==)
 VF_LCMP(!=)
 
+
+// ---- trivially copyable archetype -------------------------------------------------
+// vf::TQ offers the documented operations like vf::Q but is a 4-byte handle into an append-only (per-thread) table of
+// exact rationals: it is trivially copyable and trivially destructible, so memcpy / memset / bitwise "optimisations"
+// selected with std::is_trivially_copyable are taken with it - yet its value zero is NOT the all-zero bit pattern. The
+// handle 0 (what memset(0) or a zero-filled buffer produces) is invalid; reading it, like reading a default-constructed
+// value, is counted as a read of an uninitialised scalar.
+struct TQ {
+  uint32_t id;
+  static std::vector<mpq_class> &tab() {
+    static thread_local std::vector<mpq_class> t{mpq_class(0), mpq_class(0)};  // 0: invalid (all-zero bits), 1: default-constructed
+    return t;
+  }
+  static uint32_t put(const mpq_class &q) {
+    auto &t = tab();
+    t.push_back(q);
+    return (uint32_t)(t.size() - 1);
+  }
+  TQ() : id(1) {}
+  explicit TQ(int i) : id(put(mpq_class(i))) {}
+  TQ(from_mpq_t, const mpq_class &q) : id(put(q)) {}
+  const mpq_class &rd() const {
+    if (id < 2 || id >= tab().size()) { ++g_poison_reads; return tab()[0]; }
+    return tab()[id];
+  }
+  TQ &operator+=(const TQ &o) { id = put(mpq_class(rd() + o.rd())); return *this; }
+  TQ &operator-=(const TQ &o) { id = put(mpq_class(rd() - o.rd())); return *this; }
+  TQ &operator*=(const TQ &o) { id = put(mpq_class(rd() * o.rd())); return *this; }
+  TQ &operator/=(const TQ &o) {
+    const mpq_class d = o.rd();
+    if (d == 0) { ++g_div_zero; (void)rd(); id = put(mpq_class(0)); }
+    else id = put(mpq_class(rd() / d));
+    return *this;
+  }
+  friend TQ operator+(const TQ &a, const TQ &b) { TQ r(a); r += b; return r; }
+  friend TQ operator-(const TQ &a, const TQ &b) { TQ r(a); r -= b; return r; }
+  friend TQ operator*(const TQ &a, const TQ &b) { TQ r(a); r *= b; return r; }
+  friend TQ operator/(const TQ &a, const TQ &b) { TQ r(a); r /= b; return r; }
+  friend TQ operator-(const TQ &a) { return TQ(from_mpq_t{}, mpq_class(-a.rd())); }
+  friend bool operator<(const TQ &a, const TQ &b) { return a.rd() < b.rd(); }
+  friend bool operator<=(const TQ &a, const TQ &b) { return a.rd() <= b.rd(); }
+  friend bool operator>(const TQ &a, const TQ &b) { return a.rd() > b.rd(); }
+  friend bool operator>=(const TQ &a, const TQ &b) { return a.rd() >= b.rd(); }
+  friend bool operator==(const TQ &a, const TQ &b) { return a.rd() == b.rd(); }
+  friend bool operator!=(const TQ &a, const TQ &b) { return a.rd() != b.rd(); }
+};
+static_assert(std::is_trivially_copyable_v<TQ> && std::is_trivially_destructible_v<TQ> && !std::is_arithmetic_v<TQ>);
+
 // ---- uniform access from harness code ------------------------------------
 template <class S>
 struct is_exact : std::false_type {};
@@ -245,6 +295,8 @@ template <>
 struct is_exact<QP> : std::true_type {};
 template <>
 struct is_exact<LQ> : std::true_type {};
+template <>
+struct is_exact<TQ> : std::true_type {};
 
 template <class S>
 inline S mk(const mpq_class &q) {
@@ -259,7 +311,9 @@ inline S mki(long i) {
 }
 template <class S>
 inline mpq_class val(const S &s) {
-  if constexpr (is_exact<S>::value) {
+  if constexpr (std::is_same_v<S, TQ>) {
+    return s.rd();
+  } else if constexpr (is_exact<S>::value) {
     if (s.p) ++g_poison_reads;
     return s.v;
   } else {
@@ -268,7 +322,9 @@ inline mpq_class val(const S &s) {
 }
 template <class S>
 inline bool poisoned(const S &s) {
-  if constexpr (is_exact<S>::value)
+  if constexpr (std::is_same_v<S, TQ>)
+    return s.id < 2;
+  else if constexpr (is_exact<S>::value)
     return s.p;
   else
     return false;
